@@ -412,6 +412,15 @@ def params_of(body):
     return tuple(("param", body.local_name(i) or "_%d" % i) for i in range(1, body.argc + 1))
 
 
+def extract_from(prog, body, bb, effects=True, inline=()):
+    """Formula of the code from block `bb` to the return, with every local standing for itself (("local", l)): used
+    for the loop-free tail of a function that contains a loop."""
+    ex = Extractor(prog, inline, effects=effects)
+    env = {l: ("local", l) for l in range(1, len(body.locals))}
+    ex._params = tuple(env[i + 1] for i in range(body.argc))
+    return ex._block(body, bb, env, (), 0), ex
+
+
 def extract(prog, body, args=None, inline=(), effects=False):
     ex = Extractor(prog, inline, effects=effects)
     t = ex.run(body, tuple(args) if args is not None else params_of(body))
@@ -551,6 +560,8 @@ def term_str(t, depth=0):
         return "true" if t[1] else "false"
     if k == "param":
         return t[1]
+    if k == "local":
+        return "_%d" % t[1]
     if k == "field":
         return term_str(t[1]) + "." + t[2]
     if k == "cast":
